@@ -193,19 +193,26 @@ def _run_job(job):
                                  "axismove": int(round(axismove * 1e6)), "routine": e["routine"], "stage": e["stage"], "fr": e["fr"],
                                  "what": f"{e['routine']} {e['res']} {e['dih']} in {e['stage']} ({e['fr']})"})
         # end of run: geometry among the heavy atoms the input supplied
-        first = {}
+        first, first_named = {}, {}
         for e in tr.events:
             if e.get("e") == "new" and e["stage"] in ("SetupMolecule", "") and e["hv"]:
                 first[e["a"]] = [v / 1000.0 for v in e["p"]]
+                # position in the chain + atom name: survives residue renaming and the object exchange of a kept flip
+                first_named[(e["res"].split(" ", 1)[1], e["name"])] = first[e["a"]]
         ids = tr.ids
         bonddev = angledev = backbonemove = anymove = 0.0
         worst = ""
         for rr in r["bio"].residues:
             cur = {}
+            rkey = f"{getattr(rr, 'chain_id', '')} {getattr(rr, 'res_seq', '')}{getattr(rr, 'ins_code', '')}"
             for a in rr.atoms:
                 i = ids.get(id(a))
                 if i in first:
                     cur[a.name] = (first[i], [a.x, a.y, a.z], a)
+                elif (rkey, a.name) in first_named and not a.name.startswith("H"):
+                    # the heavy atom that now carries the name of an input atom of this residue (a flip keeps the *FLIP copy
+                    # under the original name): it stands for that input atom
+                    cur[a.name] = (first_named[(rkey, a.name)], [a.x, a.y, a.z], a)
             for nm, (p0, p1, a) in cur.items():
                 d = _dist(p0, p1)
                 if d > anymove:
